@@ -19,10 +19,15 @@ static uint64_t lcg (uint64_t *x) { *x = *x * 6364136223846793005ULL + 144269504
 /* the same fill is emitted into the driver */
 static void fill_buf (uint8_t *buf, long bytes, uint64_t seed, int fsize)
 {
-  uint64_t x = seed; long i;
+  uint64_t x = seed; long i; int positive = fsize & 0x200;
+  fsize &= ~0x200;
+  /* fsize | 0x200: sign bit cleared (operands of square roots); fsize | 0x100: wide exponent range (finite, up to 2^40: beyond the int32 range) for float->int conversions */
   if (fsize == 4) { for (i = 0; i + 4 <= bytes; i += 4) { uint64_t v = lcg (&x); uint32_t w = (uint32_t) ((v >> 32) & 0x807fffffu) | (uint32_t) ((120 + ((v >> 24) % 16)) << 23); memcpy (buf + i, &w, 4); } for (; i < bytes; i++) buf[i] = 0; }
   else if (fsize == 8) { for (i = 0; i + 8 <= bytes; i += 8) { uint64_t v = lcg (&x); uint64_t w = (v & 0x800fffffffffffffULL) | ((uint64_t) (1016 + ((v >> 52) % 16)) << 52); memcpy (buf + i, &w, 8); } for (; i < bytes; i++) buf[i] = 0; }
+  else if (fsize == (4 | 0x100)) { for (i = 0; i + 4 <= bytes; i += 4) { uint64_t v = lcg (&x); uint32_t w = (uint32_t) ((v >> 32) & 0x807fffffu) | (uint32_t) ((100 + ((v >> 24) % 68)) << 23); memcpy (buf + i, &w, 4); } for (; i < bytes; i++) buf[i] = 0; }
+  else if (fsize == (8 | 0x100)) { for (i = 0; i + 8 <= bytes; i += 8) { uint64_t v = lcg (&x); uint64_t w = (v & 0x800fffffffffffffULL) | ((uint64_t) (1000 + ((v >> 52) % 64)) << 52); memcpy (buf + i, &w, 8); } for (; i < bytes; i++) buf[i] = 0; }
   else for (i = 0; i < bytes; i++) buf[i] = (uint8_t) (lcg (&x) >> 56);
+  if (positive) { int w = fsize & 0xff; for (i = w - 1; i < bytes; i += w) buf[i] &= 0x7f; }
 }
 
 static int var_fsize (const ProgSpec *ps, int var)
@@ -139,7 +144,7 @@ int main (int argc, char **argv)
   FILE *forc, *fdrv, *fexp; char path[600]; int k, K, single; unsigned profile; long emitted = 0;
   vh_parse_args (argc, argv);
   K = vh_args.limit > 0 ? (int) vh_args.limit : 30;
-  single = !strcmp (vh_args.mode, "single");
+  single = !strcmp (vh_args.mode, "single") || !strcmp (vh_args.mode, "fsingle");
   profile = !strcmp (vh_args.mode, "float") ? (GP_FLOAT | GP_2D) : !strcmp (vh_args.mode, "mixed") ? (GP_INT | GP_FLOAT | GP_ACC | GP_2D | GP_EXPLICIT_LS | GP_SPECIAL) : (GP_INT | GP_ACC | GP_2D | GP_EXPLICIT_LS);
   snprintf (path, sizeof path, "%s.orc", vh_args.aux); forc = fopen (path, "w");
   snprintf (path, sizeof path, "%s_drv.c", vh_args.aux); fdrv = fopen (path, "w");
@@ -147,16 +152,21 @@ int main (int argc, char **argv)
   if (!forc || !fdrv || !fexp) { perror ("open"); return 2; }
   orc_init ();
   if (single) {
-    enumerate_single (GP_INT | GP_FLOAT | GP_ACC | GP_SPECIAL);
+    enumerate_single (!strcmp (vh_args.mode, "fsingle") ? GP_FLOAT : (GP_INT | GP_FLOAT | GP_ACC | GP_SPECIAL));
+    if (vh_args.limit == -2) { printf ("%d\n", n_single); return 0; }      /* how many single-opcode forms there are */
     if (vh_args.start >= n_single) K = 0; else if (vh_args.start + K > n_single) K = (int) (n_single - vh_args.start);
     fprintf (stderr, "n_single %d\n", n_single);
+
   }
   fprintf (fdrv, "/* generated by orccgen */\n#include <stdio.h>\n#include <stdlib.h>\n#include <string.h>\n#include <stdint.h>\n#include \"%s.h\"\n", strrchr (vh_args.aux, '/') ? strrchr (vh_args.aux, '/') + 1 : vh_args.aux);
   fprintf (fdrv, "static uint64_t lcg (uint64_t *x) { *x = *x * 6364136223846793005ULL + 1442695040888963407ULL; return *x; }\n"
-      "static void fill_buf (unsigned char *buf, long bytes, uint64_t seed, int fsize) { uint64_t x = seed; long i;\n"
+      "static void fill_buf (unsigned char *buf, long bytes, uint64_t seed, int fsize) { uint64_t x = seed; long i; int positive = fsize & 0x200; fsize &= ~0x200;\n"
       "  if (fsize == 4) { for (i = 0; i + 4 <= bytes; i += 4) { uint64_t v = lcg (&x); uint32_t w = (uint32_t) ((v >> 32) & 0x807fffffu) | (uint32_t) ((120 + ((v >> 24) %% 16)) << 23); memcpy (buf + i, &w, 4); } for (; i < bytes; i++) buf[i] = 0; }\n"
       "  else if (fsize == 8) { for (i = 0; i + 8 <= bytes; i += 8) { uint64_t v = lcg (&x); uint64_t w = (v & 0x800fffffffffffffULL) | ((uint64_t) (1016 + ((v >> 52) %% 16)) << 52); memcpy (buf + i, &w, 8); } for (; i < bytes; i++) buf[i] = 0; }\n"
-      "  else for (i = 0; i < bytes; i++) buf[i] = (unsigned char) (lcg (&x) >> 56); }\n"
+      "  else if (fsize == (4 | 0x100)) { for (i = 0; i + 4 <= bytes; i += 4) { uint64_t v = lcg (&x); uint32_t w = (uint32_t) ((v >> 32) & 0x807fffffu) | (uint32_t) ((100 + ((v >> 24) %% 68)) << 23); memcpy (buf + i, &w, 4); } for (; i < bytes; i++) buf[i] = 0; }\n"
+      "  else if (fsize == (8 | 0x100)) { for (i = 0; i + 8 <= bytes; i += 8) { uint64_t v = lcg (&x); uint64_t w = (v & 0x800fffffffffffffULL) | ((uint64_t) (1000 + ((v >> 52) %% 64)) << 52); memcpy (buf + i, &w, 8); } for (; i < bytes; i++) buf[i] = 0; }\n"
+      "  else for (i = 0; i < bytes; i++) buf[i] = (unsigned char) (lcg (&x) >> 56);\n"
+      "  if (positive) { int w = fsize & 0xff; for (i = w - 1; i < bytes; i += w) buf[i] &= 0x7f; } }\n"
       "static uint64_t fnv_buf (uint64_t h, const unsigned char *p, long n) { long i; for (i = 0; i < n; i++) h = (h ^ p[i]) * 1099511628211ULL; return h; }\n"
       "typedef union { uint32_t i; float f; } u32f; typedef union { uint64_t i; double f; } u64d;\n"
       "#include <pthread.h>\nstatic int only = -1; static char *outbuf[64];\n"
@@ -191,8 +201,13 @@ int main (int argc, char **argv)
         PVar *v = &ps.vars[i];
         if (v->kind == VK_DEST || v->kind == VK_SRC) {
           long lo = 0, hi = n, ext; int stride, mis = (int) vh_randn (&r, 4) * v->size, fs = var_fsize (&ps, i); long total;
+          /* single-opcode forms: the whole finite range a conversion saturates on (and, in the float-only mode, every opcode gets wide operands); roots get positive operands */
+          if (fs && single && ps.ninsns == 1 && (gen_op (&ps.insns[0])->flags & RF_FLOAT_S) &&
+              ((!(gen_op (&ps.insns[0])->flags & RF_FLOAT_D) && !strncmp (gen_op (&ps.insns[0])->name, "conv", 4)) || !strcmp (vh_args.mode, "fsingle"))) fs |= 0x100;
+          if (fs && single && ps.ninsns == 1 && !strncmp (gen_op (&ps.insns[0])->name, "sqrt", 4)) fs |= 0x200;
           gen_entitled (&ps, &io, i, &lo, &hi);
-          if (lo > 0) lo = 0; if (hi < n) hi = n;
+          if (lo > 0) lo = 0;
+          if (hi < n) hi = n;
           ext = (hi - lo) * v->size;
           stride = ps.is2d ? (int) ((ext + (long) vh_randn (&r, 40)) / v->size * v->size + v->size) : 0;
           total = (long) (m - 1) * stride + ext;
